@@ -304,6 +304,36 @@ def check_entry(ctx):
                     ctx.violate(core.make_violation({'check': 'stale-adsorbate-properties', 'how': how},
                                                     f'after the adsorbate c16-synthetic was re-defined ({how}) psd_mesoporous widths {o.value["pore_widths"][:3] if o.ok else o.brief()} '
                                                     f'do not follow the Kelvin equation for the current properties ({w[:3]})', {'second': second}))
+        # isotherms that hold BOTH branches (a hysteresis loop): the analysis of one branch is the analysis of that branch's points stored alone,
+        # whatever the other branch holds (reversal point above / at / below the first desorption reading; loops that close or stay open)
+        for rev, des_top in ((0.95, 0.90), (0.95, 0.95), (0.90, 0.93), (0.985, 0.97)):
+            pa = numpy.concatenate([numpy.linspace(0.12, 0.8, 9), [rev]])
+            pd_ = numpy.concatenate([[des_top], numpy.linspace(0.85, 0.15, 8)])
+            va = 0.05 + 0.8 * pa ** 2
+            vd = 0.07 + 0.85 * pd_ ** 1.6
+            both = pygaps.PointIsotherm(pressure=list(pa) + list(pd_), loading=list(va) + list(vd), branch=[0] * len(pa) + [1] * len(pd_), material='c16', adsorbate='N2',
+                                        temperature=77.355, **U)
+            alone = {'ads': pygaps.PointIsotherm(pressure=pa, loading=va, branch='ads', material='c16', adsorbate='N2', temperature=77.355, **U),
+                     'des': pygaps.PointIsotherm(pressure=pd_, loading=vd, branch='des', material='c16', adsorbate='N2', temperature=77.355, **U)}
+            for method, pore in (('pygaps-DH', 'cylinder'), ('pygaps-DH', 'slit'), ('BJH', 'cylinder'), ('DH', 'cylinder')):
+                for branch in ('des', 'ads'):
+                    for lim in (None, (0.1, 0.99), (None, None), (0.2, 0.92)):
+                        kw_ = dict(psd_model=method, pore_geometry=pore, branch=branch, thickness_model='Halsey')
+                        if lim is not None:
+                            kw_['p_limits'] = lim
+                        o_b, o_a = core.call(pgc.psd_mesoporous, both, **kw_), core.call(pgc.psd_mesoporous, alone[branch], **kw_)
+                        ev += 1
+                        nt += 1
+                        same = o_b.ok == o_a.ok and (not o_a.ok or all(
+                            numpy.shape(o_b.value[k_]) == numpy.shape(o_a.value[k_]) and numpy.allclose(numpy.asarray(o_b.value[k_], dtype=float), numpy.asarray(o_a.value[k_], dtype=float), rtol=1e-10, atol=0, equal_nan=True)
+                            for k_ in ('pore_widths', 'pore_distribution', 'pore_volume_cumulative')))
+                        if not same:
+                            ctx.violate(core.make_violation(
+                                {'check': 'branch-not-analysed-alone', 'branch': branch},
+                                f'psd_mesoporous({method},{pore},branch={branch},{lim}) on a loop (adsorption up to {rev}, desorption from {des_top}): '
+                                f'{len(o_b.value["pore_widths"]) if o_b.ok else o_b.brief()[:120]} widths, the same branch stored alone gives '
+                                f'{len(o_a.value["pore_widths"]) if o_a.ok else o_a.brief()[:120]}' + (f' (cumulative ends {o_b.value["pore_volume_cumulative"][-1]:.6g} vs {o_a.value["pore_volume_cumulative"][-1]:.6g})' if o_a.ok and o_b.ok else ''),
+                                {'reversal': rev, 'first_desorption': des_top, 'limits': lim}))
     finally:
         pygaps.ADSORBATE_LIST[:] = base
     # every result returned above is still what it was when it was returned (the analyses that followed did not write into it)
